@@ -161,8 +161,9 @@ func toChunk(peer *Peer, index uint32, begin uint32) uint32 {
 
 func fromChunk(peer *Peer, chunk uint32) (uint32, uint32) {
 	ps := peer.Pieces.PieceSize()
-	index := chunk / (ps / config.ChunkSize)
-	begin := (chunk * config.ChunkSize) % ps
+	cpp := ps / config.ChunkSize
+	index := chunk / cpp
+	begin := (chunk % cpp) * config.ChunkSize
 	return index, begin
 }
 
